@@ -628,7 +628,16 @@ func genConvItems(types []numType) []bitem {
 					// a negative operand that rounds to zero is +0 as a constant and -0 at run time (as in Go)
 					it.SameRT = !(to.Float && a.q.Sign() < 0 && (it.Want == "0"))
 					lit := strings.TrimSuffix(strings.TrimPrefix(a.lit, "("), ")")
-					it.RunStmts = fmt.Sprintf("\t\t%s\n\t\tvar x %s = %s\n\t\tprintln(%s, %s, @ID@)", strings.ReplaceAll(it.Decl, "@N@", "@C@"), from.Name, lit, obs(to, "@C@"), obs(to, to.Name+"(x)"))
+					pt := to
+					if !to.Float && to.PrintConv == "" && from.PrintConv != "" {
+						// rune and int32 (byte and uint8) are identical types: the converted run-time value is
+						// still rendered as a character by println; the value is observed through int64/uint64
+						pt.PrintConv = "uint64"
+						if to.Signed {
+							pt.PrintConv = "int64"
+						}
+					}
+					it.RunStmts = fmt.Sprintf("\t\t%s\n\t\tvar x %s = %s\n\t\tprintln(%s, %s, @ID@)", strings.ReplaceAll(it.Decl, "@N@", "@C@"), from.Name, lit, obs(pt, "@C@"), obs(pt, to.Name+"(x)"))
 				}
 				out = append(out, it)
 			}
